@@ -192,10 +192,11 @@ def run_faults(cfg, out, props=None, tag="C05", profiles_pool=None, extra=None):
             # --- storm
             pool = profiles_pool or ["lossy", "dup", "reorder", "slow", "acks-lost", "hostile", "very-slow"]
             profiles = [r.choice(pool) for _ in range(r.randint(1, 4))]
-            if extra:
-                extra(run, r, c)
+            stop_extra = extra(run, r, c) if extra else None
             T.storm(run, r, [c], ticks=r.randint(120, 500), rate=r.choice([0.05, 0.15, 0.4]), profile_seq=profiles,
                     retry_modes=(-1, -1, 0, 1), fills=("random", "zeros", "text"))
+            if stop_extra:
+                stop_extra()                 # the adversary rests while the network heals
             w.net.heal(0.004)
             healed = run.settle([c], min_ticks=90)
             T.final_checks(run, [c], healed)
@@ -203,6 +204,8 @@ def run_faults(cfg, out, props=None, tag="C05", profiles_pool=None, extra=None):
             out["counters"].inc("worlds")
             out["counters"].inc("void_runs" if run.void else "runs_connection_open")
             out["distinct"].add(h64("faults", key))
+            # every application send of a seeded fault world is a distinct case (unique payload id, own network fate)
+            out["distinct_n"] = out.get("distinct_n", 0) + run.c.get("app_sends", 0)
             if len(out["samples"]) < 2:
                 out["samples"].append({"scenario": "faults", "case": key, "mtu": mtu, "dt": dt, "profiles": profiles,
                                        "sends": run.c.get("app_sends"), "net": dict(w.net.stats), "void": run.void})
@@ -216,7 +219,7 @@ def run_shard(cfg):
         n = run_sizes(cfg, out)
     else:
         n = run_faults(cfg, out)
-    return {"evaluations": n, "distinct": sorted(out["distinct"]), "counters": dict(out["counters"]),
+    return {"evaluations": n, "distinct": sorted(out["distinct"]), "distinct_count": out.get("distinct_n", 0), "counters": dict(out["counters"]),
             "violations": out["violations"][:60], "samples": out["samples"]}
 
 
@@ -233,7 +236,8 @@ def finish(tier, seed, results):
                 "datagram capacity +-12, a few random) from one of the four API entry points %r at one MTU over a clean network; "
                 "faults: one evaluation = one application send inside a seeded world with targeted loss of the k-th carrying "
                 "datagram / of the acks, then random network profiles, then a healed network until quiescence or the %.0f s horizon. "
-                "distinct = distinct (mtu, length, side, api) and distinct fault worlds" % (APIS, T.HORIZON),
+                "distinct = distinct (mtu, length, side, api) plus every application send made inside a fault world "
+                "(unique payload id, own network fate)" % (APIS, T.HORIZON),
         "fault_classes": ["k-th carrying datagram lost", "acks lost", "lossy", "dup", "reorder", "slow (rtt>resend)", "very-slow (rtt>timeout)",
                           "acks-lost (one-way)", "hostile mix"],
         "samples": m["samples"],
